@@ -37,6 +37,7 @@ import (
 	"sort"
 	"strconv"
 	"strings"
+	"sync"
 	"sync/atomic"
 	"time"
 
@@ -116,10 +117,12 @@ type logEnv struct {
 	seqErr   atomic.Value
 	rootsDER [][]byte // ground truth: what the root pool must contain, in order
 	indexes  map[int64]bool
+	lowQueue []string          // low_priority labels gathered for several requests that ended together
+	accepted map[string][]byte // every chain certificate of every submission answered 200, by issuer/ key
 }
 
 func (d *driver) newLog(name string, poolSize int, be *memBackend, lk *memLock, create bool) *logEnv {
-	e := &logEnv{d: d, name: name, be: be, lk: lk, indexes: map[int64]bool{}}
+	e := &logEnv{d: d, name: name, be: be, lk: lk, indexes: map[int64]bool{}, accepted: map[string][]byte{}}
 	d.ncache++
 	e.cfg = &ctlog.Config{
 		Name: "example.com/verif-c09", Key: d.logKey, WitnessKey: d.wkey, PoolSize: poolSize,
@@ -241,6 +244,42 @@ func (e *logEnv) readLeaf(idx int64) (*sunlight.LogEntry, error) {
 // lowLabelDelta returns the low_priority label of the addchain_requests_total series that was
 // incremented since the previous call ("-" for the empty label, "?n" if not exactly one changed).
 func (e *logEnv) lowLabelDelta() string {
+	if len(e.lowQueue) > 0 {
+		x := e.lowQueue[0]
+		e.lowQueue = e.lowQueue[1:]
+		return x
+	}
+	return lowLabelOf(e.lowLabelChanges())
+}
+
+// queueLowLabels: n requests ended since the last reading and will be reported one after the
+// other; their labels can only be told apart when they are all the same (same leaf).
+func (e *logEnv) queueLowLabels(n int) {
+	changed := e.lowLabelChanges()
+	same := len(changed) == n
+	for _, c := range changed {
+		same = same && c == changed[0]
+	}
+	for i := 0; i < n; i++ {
+		if same {
+			e.lowQueue = append(e.lowQueue, lowLabelOf(changed[:1]))
+		} else {
+			e.lowQueue = append(e.lowQueue, fmt.Sprintf("?%d", len(changed)))
+		}
+	}
+}
+
+func lowLabelOf(changed []string) string {
+	if len(changed) != 1 {
+		return fmt.Sprintf("?%d", len(changed))
+	}
+	if changed[0] == "" {
+		return "-"
+	}
+	return changed[0]
+}
+
+func (e *logEnv) lowLabelChanges() []string {
 	mfs, err := e.reg.Gather()
 	if err != nil {
 		fatal("gather: %v", err)
@@ -267,13 +306,7 @@ func (e *logEnv) lowLabelDelta() string {
 			}
 		}
 	}
-	if len(changed) != 1 {
-		return fmt.Sprintf("?%d", len(changed))
-	}
-	if changed[0] == "" {
-		return "-"
-	}
-	return changed[0]
+	return changed
 }
 
 type response struct {
@@ -359,6 +392,11 @@ type subCase struct {
 	twin        []byte     // expected defanged TBS built by the standard library (precerts)
 	finalCA     *authority // the CA whose key the issuer_key_hash must be over (precerts)
 	expectLow   int        // 1 low priority, 0 not, -1 no expectation
+
+	// the submission is expected to be deduplicated against a leaf created by ANOTHER submission
+	// of the same leaf through this other chain (root last): the logged entry then carries that
+	// chain's fingerprints, while this submission's own chain certificates must be retrievable too
+	entryFull [][]byte
 }
 
 func (d *driver) emit(format string, a ...any) {
@@ -501,8 +539,13 @@ func (d *driver) finishCase(e *logEnv, c *subCase, now int64, rsp response) {
 	if rsp.code == 0 {
 		result = "panic"
 	}
-	d.emit("submit|%s|%d|%s|%s|%s|%s|%s|%d|%s|=>|%s", c.ep, len(c.body), js, hxList(raws), vchain, tbsNone, tbsPre,
-		now, c.wait, result)
+	if c.entryFull == nil {
+		d.emit("submit|%s|%d|%s|%s|%s|%s|%s|%d|%s|=>|%s", c.ep, len(c.body), js, hxList(raws), vchain, tbsNone, tbsPre,
+			now, c.wait, result)
+	} else { // the model returns the pending entry: this request's entry with the issuers of the first chain
+		d.emit("submitdup|%s|%d|%s|%s|%s|%s|%s|%d|%s|%s|=>|%s", c.ep, len(c.body), js, hxList(raws), vchain, tbsNone, tbsPre,
+			now, c.wait, hxList(c.entryFull[1:]), result)
+	}
 
 	fail := func(what string) string {
 		return "FAILS:" + what + ":ep=" + c.ep + ":chain=" + hxList(raws)
@@ -679,22 +722,32 @@ func (d *driver) finishCase(e *logEnv, c *subCase, now int64, rsp response) {
 		d.mon("mon_sct", n, c.desc, res)
 	}
 
-	// (c) every chain certificate is a retrievable issuer, and the fingerprints name them in order
+	// (c) every chain certificate of this ACCEPTED submission is a retrievable issuer, and the
+	// fingerprints of the entry name, in order, the chain certificates of the submission that
+	// created the leaf (this one, unless it was deduplicated against another chain's)
 	res = "holds"
-	if len(le.ChainFingerprints) != len(c.full)-1 {
-		res = fail(fmt.Sprintf("%d chain fingerprints for %d chain certificates", len(le.ChainFingerprints), len(c.full)-1))
+	fpChain := c.full
+	if c.entryFull != nil {
+		fpChain = c.entryFull
+	}
+	if len(le.ChainFingerprints) != len(fpChain)-1 {
+		res = fail(fmt.Sprintf("%d chain fingerprints for %d chain certificates", len(le.ChainFingerprints), len(fpChain)-1))
 	} else {
-		for i, der := range c.full[1:] {
-			fp := sha256.Sum256(der)
-			obj, ok := e.be.get(fmt.Sprintf("issuer/%x", fp))
-			switch {
-			case le.ChainFingerprints[i] != fp:
+		for i, der := range fpChain[1:] {
+			if le.ChainFingerprints[i] != sha256.Sum256(der) {
 				res = fail(fmt.Sprintf("fingerprint %d is not SHA-256 of chain[%d]", i, i+1))
-			case !ok:
-				res = fail(fmt.Sprintf("issuer/%x not stored", fp))
-			case !bytes.Equal(obj, der):
-				res = fail(fmt.Sprintf("issuer/%x has other contents", fp))
 			}
+		}
+	}
+	for _, der := range append(append([][]byte{}, c.full[1:]...), fpChain[1:]...) {
+		key := fmt.Sprintf("issuer/%x", sha256.Sum256(der))
+		e.accepted[key] = der
+		obj, ok := e.be.get(key)
+		switch {
+		case !ok:
+			res = fail(key + " not stored")
+		case !bytes.Equal(obj, der):
+			res = fail(key + " has other contents")
 		}
 	}
 	d.mon("mon_issuers", n, c.desc, res)
@@ -1328,6 +1381,35 @@ func (e *logEnv) issuerState(issuers [][]byte) (known, stored []string) {
 	return
 }
 
+// issuerLine prints the upissuers line of one request: state before, the backend's Fetch/Upload
+// outcomes per chain certificate during the request, whether the request was answered with the
+// issuer error, state after. Returns the number of failed Uploads of issuer/ objects.
+func (d *driver) issuerLine(issuers [][]byte, known0, stored0 []string, events []issuerEvent, known1, stored1 []string, issuerErr bool) int {
+	fetchOK, uploadOK := make([]string, len(issuers)), make([]string, len(issuers))
+	uploadFailures := 0
+	for i, der := range issuers {
+		key := fmt.Sprintf("issuer/%x", sha256.Sum256(der))
+		fetchOK[i], uploadOK[i] = "1", "1"
+		for _, ev := range events {
+			if ev.key == key && ev.op == "fetch" && ev.injected {
+				fetchOK[i] = "0"
+			}
+			if ev.key == key && ev.op == "upload" && ev.failed {
+				uploadOK[i] = "0"
+				uploadFailures++
+			}
+		}
+	}
+	r := "ok"
+	if issuerErr {
+		r = "err"
+	}
+	d.emit("upissuers|%s|%s|%s|%s|%s|=>|%s:%s:%s", hxList(issuers), issuerBits(known0), issuerBits(stored0),
+		issuerBits(fetchOK), issuerBits(uploadOK), r, issuerBits(known1), issuerBits(stored1))
+	d.stats["upissuers:"+r]++
+	return uploadFailures
+}
+
 // faultAttempts submits c under plan (the fault applies from the first attempt on; cancellation
 // only to the first attempt) and resubmits the same request until it is answered 200.
 func (d *driver) faultAttempts(e *logEnv, c *subCase, plan faultPlan) {
@@ -1367,30 +1449,9 @@ func (d *driver) faultAttempts(e *logEnv, c *subCase, plan faultPlan) {
 		events := e.be.takeIssuerEvents()
 		known1, stored1 := e.issuerState(issuers)
 
-		fetchOK, uploadOK := make([]string, len(issuers)), make([]string, len(issuers))
-		uploadFailures := 0
-		for i, der := range issuers {
-			key := fmt.Sprintf("issuer/%x", sha256.Sum256(der))
-			fetchOK[i], uploadOK[i] = "1", "1"
-			for _, ev := range events {
-				if ev.key == key && ev.op == "fetch" && ev.injected {
-					fetchOK[i] = "0"
-				}
-				if ev.key == key && ev.op == "upload" && ev.failed {
-					uploadOK[i] = "0"
-					uploadFailures++
-				}
-			}
-		}
-		issuerErr := strings.Contains(string(rsp.body), "failed to upload issuer")
+		uploadFailures := d.issuerLine(issuers, known0, stored0, events, known1, stored1,
+			strings.Contains(string(rsp.body), "failed to upload issuer"))
 		stepFailed := uploadFailures > 0 || plan.kind == "tampered"
-		r := "ok"
-		if issuerErr {
-			r = "err"
-		}
-		d.emit("upissuers|%s|%s|%s|%s|%s|=>|%s:%s:%s", hxList(issuers), issuerBits(known0), issuerBits(stored0),
-			issuerBits(fetchOK), issuerBits(uploadOK), r, issuerBits(known1), issuerBits(stored1))
-		d.stats["upissuers:"+r]++
 
 		c.wait = "ok"
 		if stepFailed {
@@ -1524,7 +1585,244 @@ func (d *driver) issuerFaults(n int) {
 	}
 	d.checkRound(e, "issuer-faults")
 
-	// every fingerprint of every entry of this log names a stored issuer whose SHA-256 it is
+	d.monIssuersAll(e)
+	e.stopSequencer()
+}
+
+// ---- pending scenario: the same leaf through two different valid chains -----------------------
+//
+// The deduplication key covers the leaf only. A second submission of the SAME leaf through a
+// DIFFERENT valid chain (a re-issued intermediate: same subject and key, other serial; a
+// cross-signed one under another accepted root; another precertificate signing certificate)
+// that arrives while the first is still pending (in the current pool, or in the pool being
+// sequenced) is answered 200 with the first one's SCT; its own chain certificates must be
+// retrievable issuers all the same (the issuer loop of addLeafToPool runs BEFORE the lookups).
+// No sequencer runs in the background here: rounds are started by hand, and a round can be held
+// at its first upload. A request is known to be waiting for its leaf when the wait function has
+// asked its context for the Done channel (probeCtx).
+
+type probeCtx struct {
+	context.Context
+	once    sync.Once
+	waiting chan struct{}
+}
+
+func (p *probeCtx) Done() <-chan struct{} {
+	p.once.Do(func() { close(p.waiting) })
+	return p.Context.Done()
+}
+
+type pendingReq struct {
+	c              *subCase
+	now            int64
+	probe          *probeCtx
+	ch             chan response
+	issuers        [][]byte
+	known0, known1 []string
+	stored0        []string
+	stored1        []string
+	events         []issuerEvent
+}
+
+// startPending posts c in the background and returns once the request waits for its leaf.
+func (d *driver) startPending(e *logEnv, c *subCase) *pendingReq {
+	ctx, cancel := context.WithTimeout(context.Background(), 30*time.Second)
+	p := &pendingReq{c: c, now: time.Now().Unix(), ch: make(chan response, 1), issuers: c.full[1:],
+		probe: &probeCtx{Context: ctx, waiting: make(chan struct{})}}
+	p.known0, p.stored0 = e.issuerState(p.issuers)
+	e.be.takeIssuerEvents()
+	go func() {
+		defer cancel()
+		p.ch <- e.postCtx(p.probe, c.ep, c.body)
+	}()
+	select {
+	case <-p.probe.waiting:
+	case r := <-p.ch: // answered without waiting (rejected, or served from the cache)
+		p.ch <- r
+	case <-time.After(20 * time.Second):
+		abort("pending: request %s neither waits for its leaf nor returns", c.desc)
+	}
+	p.events = e.be.takeIssuerEvents()
+	p.known1, p.stored1 = e.issuerState(p.issuers)
+	return p
+}
+
+func (d *driver) finishPending(e *logEnv, p *pendingReq) response {
+	select {
+	case r := <-p.ch:
+		d.issuerLine(p.issuers, p.known0, p.stored0, p.events, p.known1, p.stored1, strings.Contains(string(r.body), "failed to upload issuer"))
+		d.finishCase(e, p.c, p.now, r)
+		return r
+	case <-time.After(20 * time.Second):
+		abort("pending: request %s did not return after its round was sequenced", p.c.desc)
+	}
+	panic("unreachable")
+}
+
+// otherChain: the same submission as c (same leaf) through another certificate path (root last)
+func otherChain(c *subCase, path []*authority, includeRoot bool, first *subCase) *subCase {
+	o := *c
+	o.full = [][]byte{c.full[0]}
+	for _, a := range path {
+		o.full = append(o.full, a.der)
+	}
+	sub := o.full
+	if !includeRoot {
+		sub = sub[:len(sub)-1]
+	}
+	o.body = jsonBody(sub)
+	if first != nil {
+		o.entryFull = first.full
+	}
+	return &o
+}
+
+func (d *driver) pendingDedup(n int) {
+	be := newMemBackend()
+	e := d.newLog("pending", 0, be, newMemLock(), true)
+	defer e.log.CloseCache()
+	p := d.p
+
+	// one hierarchy per job, with second certificates of its CAs
+	type tree struct {
+		X, Y                 *authority // two accepted roots
+		X1, X1b, X1y         *authority // an intermediate: issued by X, re-issued by X, cross-signed by Y
+		X2, X2b              *authority // under X1 (X2b: re-issued; its parent pointer is X1b)
+		PX, PXb              *authority // precertificate signing certificate under X1 (PXb under X1b)
+		pathA, pathB, pathC  []*authority
+		issuer               *authority
+		pre                  bool
+		held, rootA, rootB   bool
+		kind                 string
+	}
+	kinds := []string{"reissued-intermediate", "cross-signed-intermediate", "reissued-deeper", "precert-direct", "precert-signing-reissued", "precert-signing-cross"}
+	var jobs []*tree
+	var roots [][]byte
+	mk := func(i int, kind string, held bool) *tree {
+		t := &tree{kind: kind, held: held, rootA: i%2 == 0, rootB: i%3 != 0}
+		t.X = p.newAuthority(fmt.Sprintf("root W%d", i), nil, caOpts{})
+		t.Y = p.newAuthority(fmt.Sprintf("root V%d", i), nil, caOpts{})
+		t.X1 = p.newAuthority(fmt.Sprintf("intermediate W%d.1", i), t.X, caOpts{})
+		t.X1b = p.reissue(t.X1, t.X)
+		t.X1y = p.reissue(t.X1, t.Y)
+		t.X2 = p.newAuthority(fmt.Sprintf("intermediate W%d.2", i), t.X1, caOpts{})
+		t.X2b = p.reissue(t.X2, t.X1b)
+		t.PX = p.newAuthority(fmt.Sprintf("precert signing PW%d", i), t.X1, caOpts{ctEKU: true})
+		t.PXb = p.reissue(t.PX, t.X1b)
+		switch kind {
+		case "reissued-intermediate":
+			t.issuer, t.pathB, t.pathC = t.X1, t.X1b.pathToRoot(), t.X1y.pathToRoot()
+		case "cross-signed-intermediate":
+			t.issuer, t.pathB, t.pathC = t.X1, t.X1y.pathToRoot(), t.X1b.pathToRoot()
+		case "reissued-deeper": // only the middle certificate differs / both differ
+			t.issuer, t.pathB, t.pathC = t.X2, append([]*authority{t.X2}, t.X1b.pathToRoot()...), t.X2b.pathToRoot()
+		case "precert-direct":
+			t.issuer, t.pre, t.pathB, t.pathC = t.X1, true, t.X1y.pathToRoot(), t.X1b.pathToRoot()
+		case "precert-signing-reissued":
+			t.issuer, t.pre, t.pathB, t.pathC = t.PX, true, t.PXb.pathToRoot(), append([]*authority{t.PX}, t.X1b.pathToRoot()...)
+		case "precert-signing-cross":
+			t.issuer, t.pre, t.pathB, t.pathC = t.PX, true, append([]*authority{t.PX}, t.X1y.pathToRoot()...), t.PXb.pathToRoot()
+		}
+		roots = append(roots, t.X.der, t.Y.der)
+		return t
+	}
+	for i, k := range kinds {
+		jobs = append(jobs, mk(2*i, k, false), mk(2*i+1, k, true))
+	}
+	for i := 0; i < 2+n/50; i++ {
+		jobs = append(jobs, mk(2*len(kinds)+i, kinds[d.r.Intn(len(kinds))], d.r.Intn(2) == 0))
+	}
+	if err := e.log.SetRootsFromPEM(context.Background(), pemOf(roots...)); err != nil {
+		abort("pending: SetRootsFromPEM failed: %v", err)
+	}
+	e.rootsDER = roots
+	round := func() {
+		time.Sleep(3 * time.Millisecond)
+		if err := e.log.VerifSequence(context.Background()); err != nil {
+			abort("pending: sequencing failed: %v", err)
+		}
+	}
+	for _, t := range jobs {
+		s := spec{issuer: t.issuer, naPos: 2, ep: "chain", includeRoot: t.rootA}
+		if t.pre {
+			s.poison, s.ep = 1, "prechain"
+		}
+		cA := d.build(e, s)
+		if cA == nil || cA.full == nil {
+			fatal("pending: no case")
+		}
+		where := "pool"
+		if t.held {
+			where = "sequencing"
+		}
+		tag := "pending:" + t.kind + "," + where
+		cB := otherChain(cA, t.pathB, t.rootB, cA)
+		cC := otherChain(cA, t.pathC, true, cA)
+		cA2 := otherChain(cA, t.issuer.pathToRoot(), !t.rootA, cA) // the first chain again
+		cA.desc, cB.desc, cC.desc, cA2.desc = tag+",first", tag+",second-chain", tag+",third-chain", tag+",first-chain-again"
+		d.stats["pending:"+t.kind+","+where]++
+		size0 := e.treeSize()
+
+		pA := d.startPending(e, cA)
+		if got := e.log.VerifPoolLen(); got != 1 {
+			abort("pending: pool length %d after the first submission, expected 1", got)
+		}
+		var seqDone chan struct{}
+		release := func() {}
+		if t.held { // start the round and hold it at its first upload: the leaf is in inSequencing now
+			var held <-chan struct{}
+			held, release = be.holdSequencer()
+			seqDone = make(chan struct{})
+			go func() { defer close(seqDone); round() }()
+			select {
+			case <-held:
+			case <-time.After(20 * time.Second):
+				abort("pending: the round did not reach its first upload")
+			}
+		}
+		pB := d.startPending(e, cB)
+		pA2 := d.startPending(e, cA2)
+		pC := d.startPending(e, cC)
+		storedBeforeRound := true // this submission's chain certificates, before the leaf is sequenced
+		for _, w := range pB.stored1 {
+			storedBeforeRound = storedBeforeRound && w == "same"
+		}
+		if t.held {
+			release()
+			<-seqDone
+		} else {
+			round()
+		}
+		e.queueLowLabels(4)
+		rA := d.finishPending(e, pA)
+		rB := d.finishPending(e, pB)
+		d.finishPending(e, pA2)
+		d.finishPending(e, pC)
+		if rA.code == 200 && rB.code == 200 && bytes.Equal(rA.body, rB.body) && e.treeSize() == size0+1 {
+			d.stats["pending:deduplicated-while-pending"]++ // the circumstance was produced
+			if storedBeforeRound {
+				d.stats["pending:second-chain-stored-before-the-round"]++
+			}
+		}
+		// after the round: yet another path, now served from the deduplication cache
+		cD := otherChain(cA, t.pathC, false, cA)
+		cD.desc = tag + ",after-sequencing"
+		d.run(e, cD)
+	}
+	d.stats["mon:mon_noleaf"]++
+	size := e.treeSize()
+	res := "holds"
+	if size != int64(len(e.indexes)) || size != int64(len(jobs)) {
+		res = fmt.Sprintf("FAILS:tree size %d after %d distinct leaves (%d indexes handed out): a resubmission through another chain was not deduplicated or left a leaf", size, len(jobs), len(e.indexes))
+	}
+	d.emit("mon_noleaf|%s|final|%d|=>|%s", e.name, size, res)
+	d.monIssuersAll(e)
+}
+
+// monIssuersAll: every fingerprint of every entry of the log names a stored object whose SHA-256
+// it is, and every chain certificate of every submission that was answered 200 (also one that
+// was deduplicated against a leaf created through another chain) is stored at issuer/<sha256>
+func (d *driver) monIssuersAll(e *logEnv) {
 	res := "holds"
 	size := e.treeSize()
 	for i := int64(0); i < size && res == "holds"; i++ {
@@ -1534,7 +1832,7 @@ func (d *driver) issuerFaults(n int) {
 			break
 		}
 		for _, fp := range le.ChainFingerprints {
-			obj, ok := be.get(fmt.Sprintf("issuer/%x", fp))
+			obj, ok := e.be.get(fmt.Sprintf("issuer/%x", fp))
 			if !ok {
 				res = fmt.Sprintf("FAILS:entry %d of the log names issuer/%x, which is not stored:entry=%s", i, fp, showEntry(le))
 			} else if sha256.Sum256(obj) != fp {
@@ -1542,9 +1840,18 @@ func (d *driver) issuerFaults(n int) {
 			}
 		}
 	}
+	keys := make([]string, 0, len(e.accepted))
+	for k := range e.accepted {
+		keys = append(keys, k)
+	}
+	sort.Strings(keys)
+	for _, k := range keys {
+		if obj, ok := e.be.get(k); res == "holds" && (!ok || !bytes.Equal(obj, e.accepted[k])) {
+			res = fmt.Sprintf("FAILS:a chain certificate of a submission that was answered 200 is not retrievable at %s (stored=%v):cert=%s", k, ok, hx(e.accepted[k]))
+		}
+	}
 	d.stats["mon:mon_issuers_all"]++
-	d.emit("mon_issuers_all|%s|%d|=>|%s", e.name, size, res)
-	e.stopSequencer()
+	d.emit("mon_issuers_all|%s|%d|%d|=>|%s", e.name, size, len(keys), res)
 }
 
 // ---- main -----------------------------------------------------------------------------------
@@ -1721,6 +2028,7 @@ func main() {
 
 	d.admission()
 	d.issuerFaults(n)
+	d.pendingDedup(n)
 
 	keys := make([]string, 0, len(d.stats))
 	for k := range d.stats {
